@@ -45,14 +45,34 @@ IdealEqFile(f, d)  == KeySet(f) = KeySet(d) /\ \A k \in KeySet(f) : IdealEqBlock
      "rev"      the same mapping, keys inserted in the opposite order     (always equal)
      "revkeys"  the keys in the opposite order over the values in their old positions, i.e. key i
                 carries the value of key n+1-i (equal iff these values are pairwise equal)
-   Equality of mappings must depend on which key carries which value and on nothing else; the two
-   derived operands separate "by key" from "by position" in both directions. *)
-EqSelfKinds == {"self", "rev", "revkeys"}
+     "deeprev"  the same mapping, the keys inserted in the opposite order at EVERY level below
+                (always equal; for the text flavour the serialised form of every element differs)
+   Equality of mappings must depend on which key carries which value and on nothing else; the
+   derived operands separate "by key" from "by position" in both directions.
+
+   The operand has a provenance as well (second argument of the call, EqProvs):
+     "fresh"    built through the public constructors, everything parsed
+     "lazy"     written and read back, nothing accessed: every element is still serialised
+     "read"     written and read back, everything accessed once
+   "before and after lazy parsing" quantifies over BOTH operands of `==`: neither the Ideal nor the
+   Impl answer looks at the provenance.  A lazy operand exists only if its content can be written
+   (OperandOk); otherwise the call has the outcome "NoOperand" and `==` is not evaluated. *)
+EqSelfKinds == {"self", "rev", "revkeys", "deeprev"}
+EqProvs == {"fresh", "lazy", "read"}
 Derived(kind, m) ==
   CASE kind = "self"    -> m
     [] kind = "rev"     -> Reverse(m)
     [] kind = "revkeys" -> [i \in DOMAIN m |-> KV(m[Len(m) + 1 - i].k, m[i].v)]
-EqOther(id, m, Lit(_)) == IF id \in EqSelfKinds THEN Derived(id, m) ELSE Lit(id)
+DeepRevCat(c)   == Reverse(c)
+DeepRevBlock(b) == Reverse([i \in DOMAIN b |-> KV(b[i].k, DeepRevCat(b[i].v))])
+DeepRevFile(f)  == Reverse([i \in DOMAIN f |-> KV(f[i].k, DeepRevBlock(f[i].v))])
+EqOther(id, m, Lit(_), Deep(_)) ==
+  IF id = "deeprev" THEN Deep(m) ELSE IF id \in EqSelfKinds THEN Derived(id, m) ELSE Lit(id)
+Prov(a) == IF Len(a) >= 2 THEN a[2] ELSE "fresh"
+\* F: the operand wrapped into a file (a block under "b1", a category under "b1" / "c1")
+OperandOk(prov, F) == prov = "fresh" \/ IdealSerializable(F)
+WrapBlock(b) == <<KV("b1", b)>>
+WrapCat(c)   == <<KV("b1", <<KV("c1", c)>>)>>
 
 (* ================================================================== Impl: lazy containers *)
 El(k, lz, v) == [k |-> k, lz |-> lz, v |-> v]
@@ -184,7 +204,8 @@ IdealApplyAt(fl, F, pb, pc, op, a) ==
     [] op = "FIter"     -> I(F, "ok", Keys(F))
     [] op = "FLen"      -> I(F, "ok", Len(F))
     [] op = "FContains" -> I(F, "ok", HasKey(F, a[1]))
-    [] op = "FEq"       -> I(F, "ok", IdealEqFile(F, EqOther(a[1], F, FileLit)))
+    [] op = "FEq"       -> LET o == EqOther(a[1], F, FileLit, DeepRevFile) IN
+                           IF OperandOk(Prov(a), o) THEN I(F, "ok", IdealEqFile(F, o)) ELSE No("NoOperand")
     [] op \in {"Reload", "Peek"} ->
          IF ~IdealSerializable(F) THEN No("Rejected")
          ELSE I(F, "ok", IF op = "Peek" THEN F ELSE <<>>)
@@ -195,7 +216,8 @@ IdealApplyAt(fl, F, pb, pc, op, a) ==
     [] op = "BIter"     -> I(F, "ok", Keys(B))
     [] op = "BLen"      -> I(F, "ok", Len(B))
     [] op = "BContains" -> I(F, "ok", HasKey(B, a[1]))
-    [] op = "BEq"       -> I(F, "ok", IdealEqBlock(B, EqOther(a[1], B, BlockLit)))
+    [] op = "BEq"       -> LET o == EqOther(a[1], B, BlockLit, DeepRevBlock) IN
+                           IF OperandOk(Prov(a), WrapBlock(o)) THEN I(F, "ok", IdealEqBlock(B, o)) ELSE No("NoOperand")
     [] ~hasC            -> No("KeyError")
     [] op = "CSet"      -> I(WithC(Put(C, KV(a[1], a[2]))), "ok", <<>>)
     [] op = "CGet"      -> IF HasKey(C, a[1]) THEN I(F, "ok", ValOf(C, a[1])) ELSE No("KeyError")
@@ -206,7 +228,8 @@ IdealApplyAt(fl, F, pb, pc, op, a) ==
     [] op = "CIter"     -> I(F, "ok", Keys(C))
     [] op = "CLen"      -> I(F, "ok", Len(C))
     [] op = "CContains" -> I(F, "ok", HasKey(C, a[1]))
-    [] op = "CEq"       -> I(F, "ok", IdealEqCat(C, EqOther(a[1], C, CatLit)))
+    [] op = "CEq"       -> LET o == EqOther(a[1], C, CatLit, DeepRevCat) IN
+                           IF OperandOk(Prov(a), WrapCat(o)) THEN I(F, "ok", IdealEqCat(C, o)) ELSE No("NoOperand")
 
 (* ------------------------------------------------------------------ recorded defects *)
 \* BinaryCIFBlock.__delitem__ called super().__setitem__("_" + key) with one argument: TypeError.
@@ -248,8 +271,9 @@ ApplyAt(fl, f, pb, pc, op, a) ==
     [] op = "FIter"     -> Res(f, "ok", Keys(f), {})
     [] op = "FLen"      -> Res(f, "ok", Len(f), {})
     [] op = "FContains" -> Res(f, "ok", HasKey(f, a[1]), {})
-    [] op = "FEq"       -> LET q == EqFile(fl, f, EqOther(a[1], AbsFile(f), FileLit))
-                           IN Res(q.v, "ok", q.eq, {})
+    [] op = "FEq"       -> LET o == EqOther(a[1], AbsFile(f), FileLit, DeepRevFile)
+                               q == EqFile(fl, f, o)
+                           IN IF OperandOk(Prov(a), o) THEN Res(q.v, "ok", q.eq, {}) ELSE Refuse(f, "NoOperand")
     [] op \in {"Reload", "Peek"} ->
          IF ~IdealSerializable(AbsFile(f)) THEN Refuse(WalkFile(fl, f).v, "Rejected")
          ELSE LET stale == ~ImplSerializable(fl, f)
@@ -267,8 +291,10 @@ ApplyAt(fl, f, pb, pc, op, a) ==
     [] op = "BIter"     -> Res(g, "ok", Keys(B), {})
     [] op = "BLen"      -> Res(g, "ok", Len(B), {})
     [] op = "BContains" -> Res(g, "ok", HasKey(B, a[1]), {})
-    [] op = "BEq"       -> LET q == EqBlock(fl, B, EqOther(a[1], AbsBlock(B), BlockLit))
-                           IN Res(WithB(q.v), "ok", q.eq, {})
+    [] op = "BEq"       -> LET o == EqOther(a[1], AbsBlock(B), BlockLit, DeepRevBlock)
+                               q == EqBlock(fl, B, o)
+                           IN IF OperandOk(Prov(a), WrapBlock(o)) THEN Res(WithB(q.v), "ok", q.eq, {})
+                              ELSE Refuse(g, "NoOperand")
     [] ci = 0           -> Refuse(g, "KeyError")
     \* CSet / CDel: the cached row count is dropped (self._row_count = None, since c2b1fbb3)
     [] op = "CSet"      -> Res(WithC([C EXCEPT !.cols = Put(@, El(a[1], FALSE, a[2])), !.rc = <<>>]), "ok", <<>>, {})
@@ -281,8 +307,10 @@ ApplyAt(fl, f, pb, pc, op, a) ==
     [] op = "CIter"     -> Res(h, "ok", Keys(C.cols), {})
     [] op = "CLen"      -> Res(h, "ok", Len(C.cols), {})
     [] op = "CContains" -> Res(h, "ok", HasKey(C.cols, a[1]), {})
-    [] op = "CEq"       -> LET q == EqCat(fl, C, EqOther(a[1], AbsCat(C), CatLit))
-                           IN Res(WithC(q.v), "ok", q.eq, {})
+    [] op = "CEq"       -> LET o == EqOther(a[1], AbsCat(C), CatLit, DeepRevCat)
+                               q == EqCat(fl, C, o)
+                           IN IF OperandOk(Prov(a), WrapCat(o)) THEN Res(WithC(q.v), "ok", q.eq, {})
+                              ELSE Refuse(h, "NoOperand")
 
 \* what the defective code does where a KB_* predicate holds: refuses, nothing deleted / written
 ApplyKBAt(fl, f, pb, pc, op, a) ==
